@@ -110,22 +110,24 @@ def fidelity_check(mod, tier, tmpdir, box):
         if not os.path.exists(path):
             return None
         for tc in ET.parse(path).getroot().iter("testcase"):
-            k = f"{tc.get('classname')}::{tc.get('name')}"
+            # parametrised ids embed repr() of values, which may legitimately differ under the shadow:
+            # compare per test function the multiset of outcomes
+            k = f"{tc.get('classname')}::{tc.get('name').split('[')[0]}"
             st = "pass"
             for ch in tc:
                 if ch.tag in ("failure", "error"):
                     st = "fail"
                 elif ch.tag == "skipped":
                     st = "skip"
-            res[k] = st
-        return res
+            res.setdefault(k, []).append(st)
+        return {k: sorted(v) for k, v in res.items()}
 
     a, b = outcomes(j1), outcomes(j2)
     if a is None or b is None:
         box["fidelity"] = {"ok": False, "detail": "junit output missing: " + (out2 or "")[-600:]}
         return
     diff = {k: (a.get(k), b.get(k)) for k in set(a) | set(b) if a.get(k) != b.get(k)}
-    box["fidelity"] = {"ok": not diff, "tests": len(a), "differences": dict(list(diff.items())[:10]), "suite": tests}
+    box["fidelity"] = {"ok": not diff, "tests": sum(len(v) for v in a.values()), "differences": dict(list(diff.items())[:10]), "suite": tests}
 
 
 def main(argv=None):
